@@ -470,7 +470,7 @@ def decodeFramesWF (b : List Nat) : Except (Err × Nat) (List Frame) :=
   match b with
   | [] => .ok []
   | x :: t =>
-    match _h : decodeFrame (x :: t) with
+    match h : decodeFrame (x :: t) with
     | .error e => .error (e, 0)
     | .ok (f, r) =>
       match decodeFramesWF r with
